@@ -54,6 +54,8 @@ def reader_run(tid, unit, cls, frs, chunks):
                         same = False
                     if len(buf) != b - n:
                         same = False
+                    if n != L:
+                        buf[:] = snapshot[L:]   # resynchronise at the true frame boundary, like the model
                 else:
                     buf[:] = snapshot[L:]       # resynchronise like the model: drop the frame
                 got += 1
